@@ -289,7 +289,7 @@ def tin_is_mono(tin):
 def segments_case(draw):
     case = draw(keyed_case(OPTS))
     # runs of equal keys: sort-free, the draw decides run lengths
-    runs = draw(st.lists(st.tuples(st.integers(0, 2), st.integers(1, 5)), min_size=1, max_size=6))
+    runs = draw(st.lists(st.tuples(st.integers(0, 2), st.integers(1, 5)), min_size=draw(st.sampled_from([1, 3, 3])), max_size=6))
     vals = [v for _, v in case['items']]
     total = sum(n for _, n in runs)
     if tin_is_mono(case['tin']):
